@@ -33,7 +33,7 @@ PLACEHOLDER = re.compile(r"slot#\d+|subroutine#\d+|ScratchSlot\(|SubroutineDefin
 def plan(tier, seed):
     n = 16 if tier == "quick" else 64
     return [{"seed": seed, "shard": i, "nshards": n, "tier": tier,
-             "recipes": 120 if tier == "quick" else 900, "labels": 25 if tier == "quick" else 150,
+             "recipes": 300 if tier == "quick" else 1500, "labels": 25 if tier == "quick" else 150,
              "immediates": 60 if tier == "quick" else 400, "routers": 4 if tier == "quick" else 20, "abi": 20 if tier == "quick" else 150} for i in range(n)]
 
 
